@@ -94,6 +94,11 @@ def main():
             for e in events:
                 f.write(json.dumps(e) + "\n")
         jout = os.path.join(d, "judge.json")
+        if os.environ.get("RELAY_DEBUG_DIR"):
+            import shutil
+            shutil.copy(cases_path, os.environ["RELAY_DEBUG_DIR"])
+            shutil.copy(ev_path, os.environ["RELAY_DEBUG_DIR"])
+            json.dump([{k: (v.hex() if isinstance(v, bytes) else v) for k, v in e.items()} for e in ups[0].events], open(os.path.join(os.environ["RELAY_DEBUG_DIR"], "upstream.json"), "w"))
         rc, out = base.run_vh(["judge-relay", "--prop", prop, "--cases", cases_path, "--events", ev_path, "--seed", str(args["seed"]),
                                "--tier", args["tier"], "--out", jout], timeout=1800)
         try:
